@@ -245,7 +245,7 @@ def _thr(acc, job, deadline):
         acc.check_all(ctx, items)
         acc.canary(ctx, "canary_thr", z3.Real("u0") > term(pm[0, 1]) + 2)
 
-    acc.explore(run, on_ok, deadline=deadline, max_paths=6000)
+    acc.explore(run, on_ok, deadline=deadline, max_paths=6000 if job["rows"] == 4 else 1200)
 
 
 def _seeds(acc, job):
